@@ -314,8 +314,37 @@ def enum_lib(tier):
 # ---------------------------------------------------------------------------
 # tools
 
-def dimacs_text(F):
-    return "p cnf {} {}\n".format(F['n'], len(F['clauses'])) + "".join(" ".join(map(str, list(c) + [0])) + "\n" for c in F['clauses'])
+LAYOUTS = ['clause-per-line', 'literal-per-line', 'wrapped-2', 'two-clauses-per-line', 'one-line', 'zero-on-next-line']
+
+
+def dimacs_text(F, layout=None):
+    """the formula as DIMACS text; the format lets a clause run over any number of lines and a line hold several clauses"""
+    head = "p cnf {} {}\n".format(F['n'], len(F['clauses']))
+    toks = [list(map(str, list(c) + [0])) for c in F['clauses']]
+    if layout in (None, 'clause-per-line'):
+        return head + "".join(" ".join(t) + "\n" for t in toks)
+    if layout == 'literal-per-line':
+        return head + "".join(x + "\n" for t in toks for x in t)
+    if layout == 'wrapped-2':
+        return head + "".join("".join(" ".join(t[i:i + 2]) + "\n" for i in range(0, len(t), 2)) for t in toks)
+    if layout == 'two-clauses-per-line':
+        return head + "".join(" ".join(x for t in toks[i:i + 2] for x in t) + "\n" for i in range(0, len(toks), 2))
+    if layout == 'one-line':
+        return head + " ".join(x for t in toks for x in t) + ("\n" if toks else "")
+    if layout == 'zero-on-next-line':
+        # every clause ends on the line of the next one: "1 -2\n0 2 3\n0 ..."
+        flat = [x for t in toks for x in t]
+        lines, cur = [], []
+        for x in flat:
+            if x == '0':
+                lines.append(" ".join(cur))
+                cur = ['0']
+            else:
+                cur.append(x)
+        if cur:
+            lines.append(" ".join(cur))
+        return head + "".join(l + "\n" for l in lines)
+    raise RuntimeError("harness: unknown layout " + str(layout))
 
 
 def run_tool(case):
@@ -327,10 +356,10 @@ def run_tool(case):
         flags = case['flags']
         args = ['--seed', str(case['seed'])] + flags
         random.seed(case['rseed'])
-        G = cli.build('cnfshuffle', args, stdin_text=dimacs_text(F))
+        G = cli.build('cnfshuffle', args, stdin_text=dimacs_text(F, case.get('layout')))
         what = "cnfshuffle {} on {}".format(' '.join(args), F)
         random.seed(case['rseed'] + 1)
-        r = cli.run_main('cnfshuffle', args, stdin_text=dimacs_text(F))
+        r = cli.run_main('cnfshuffle', args, stdin_text=dimacs_text(F, case.get('layout')))
         if r.code != 0 or r.exc is not None:
             raise Violation("{}: fails: {}".format(what, r))
         from checks.c17 import parse_dimacs
@@ -354,6 +383,10 @@ def run_tool(case):
     consequences(Fc, n, G.number_of_variables(), out, what)
     w = getattr(G, '_verif_witness', None)
     labels = [kind, 'tool']
+    if kind == 'cnfshuffle' and case.get('layout'):
+        labels.append('layout:' + case['layout'])
+        if case['layout'] in ('literal-per-line', 'wrapped-2') and any(len(c) >= 3 for c in Fc):
+            labels.append('clause-over-three-lines')
     if w is not None:
         verify_witness(Fc, n, out, w, what, fixed)
         labels.append('hook-witness')
@@ -373,7 +406,8 @@ def strat_tool(draw):
     seed = draw(st.integers(0, 10 ** 6))
     if draw(st.booleans()):
         return {'kind': 'cnfshuffle', 'F': draw(strat_formula(nmax=7, mmax=8)), 'seed': seed, 'rseed': draw(st.integers(0, 99)),
-                'flags': draw(st.lists(st.sampled_from(['-p', '-v', '-c', '-q']), unique=True))}
+                'flags': draw(st.lists(st.sampled_from(['-p', '-v', '-c', '-q']), unique=True)),
+                'layout': draw(st.sampled_from(LAYOUTS))}
     base = draw(st.sampled_from([['php', '3', '2'], ['op', '3'], ['tseitin', 'first', 'grid', '2', '2'], ['rphp', '2', '2', '1'],
                                  ['kcolor', '2', 'complete', '3'], ['and', '2', '2'], ['false'], ['true'], ['count', '4', '2'],
                                  ['php', '20', '10'], ['ram', '3', '3', '5']]))
@@ -387,7 +421,7 @@ def run_pipe(case):
     F = case['F']
     Fc = [list(c) for c in F['clauses']]
     n = F['n']
-    text = ''.join(case['head']) + dimacs_text(F)
+    text = ''.join(case['head']) + dimacs_text(F, case.get('layout'))
     args = ['--seed', str(case['seed'])] + case['flags']
     what = "cnfshuffle {} reading {!r} from a pipe".format(' '.join(args), text[:60])
     import tempfile
@@ -438,7 +472,7 @@ def enum_pipe(tier):
                 i += 1
                 if tier == 'quick' and i % 8 != 1:
                     continue
-                yield {'F': F, 'head': head, 'flags': fl, 'seed': i, 'hashseed': str(i % 3)}
+                yield {'F': F, 'head': head, 'flags': fl, 'seed': i, 'hashseed': str(i % 3), 'layout': LAYOUTS[i % len(LAYOUTS)]}
     # the shuffled formula is DIMACS whatever the name of the output file looks like
     for k, out in enumerate(['shuffled.cnf', 'shuffled', 'shuffled.opb', 'shuffled.tex', 'shuffled.dimacs', 'shuffled.txt', 'out.gml']):
         yield {'F': forms[k % 3], 'head': heads[k % 3], 'flags': flagsets[k % len(flagsets)], 'seed': k, 'hashseed': '0', 'out': out}
@@ -451,8 +485,8 @@ SUBCHECKS = [
                               'cp:shuffle', 'cp:explicit', 'invalid-rejected', 'hook-witness', 'searched-witness', 'reference',
                               'descending-range', 'as:array', 'as:UserList']),
     SubCheck('tools', run_tool, strategy=strat_tool, quick=400, thorough=20000,
-             rule="cnfshuffle (DIMACS on stdin, every subset of -p -v -c -q, --seed) and 'cnfgen <family> -T shuffle' with every subset of the three --no-* switches; oracle: witness verified, switched-off components are the identity, printed text equals the formula built under the same seed, all three off => clauses unchanged",
-             required_labels=['cnfshuffle', 'cnfgen-T', 'all-off', 'hook-witness']),
+             rule="cnfshuffle (DIMACS on stdin in six legal layouts: a clause per line, a literal per line, lines wrapped after two tokens, two clauses per line, everything on one line, the closing 0 at the start of the next line; every subset of -p -v -c -q, --seed) and 'cnfgen <family> -T shuffle' with every subset of the three --no-* switches; oracle: witness verified, switched-off components are the identity, printed text equals the formula built under the same seed, all three off => clauses unchanged",
+             required_labels=['cnfshuffle', 'cnfgen-T', 'all-off', 'hook-witness', 'clause-over-three-lines'] + ['layout:' + l for l in LAYOUTS]),
     SubCheck('pipe', run_pipe, enumerate_cases=enum_pipe,
              rule="the cnfshuffle tool as a real process with its input on a pipe: 4 formulas x {no comment before the problem line, one, two comment lines} x 6 switch sets (quick: every eighth), and -o into files named .cnf / .opb / .tex / .dimacs / .txt / .gml / without extension; oracle: exit status 0, DIMACS output, same counts and clause multiset shape, a signed renaming + clause permutation exists (searched), everything off = identity; non-trivial: >=3 variables and >=3 clauses",
              required_labels=['pipe', 'headerless', 'with-comments', 'to-file']),
